@@ -342,9 +342,19 @@ func isUnknownFunctionOnNull(err string) bool {
 	return false
 }
 
+// litCase is one assignment of the literal operands of a supply.
+type litCase struct {
+	expr      string
+	want      []tv // per table row
+	isNullLit [3]bool
+	rejected  bool // input predicate of the null-literal finding holds: NOT directly on a literal NULL
+}
+
 // checkTree evaluates tree t (case id) under supply s for all assignments. variant selects
-// optimizer/pushdown settings for the WHERE form: bit0 optimize, bit1 pushdown-accepting table.
-func (j *judge) checkTree(id string, t *tree, s supply, variant int) {
+// optimizer/pushdown settings: bit0 optimize, bit1 pushdown-accepting table (WHERE form).
+// whereSample > 0 restricts the WHERE form to that many of the literal assignments (chosen by
+// pick); the select form always covers all of them.
+func (j *judge) checkTree(id string, t *tree, s supply, variant int, whereSample int, pick int) {
 	c := j.c
 	st := tables[s]
 	var lits []int
@@ -365,10 +375,11 @@ func (j *judge) checkTree(id string, t *tree, s supply, variant int) {
 	defer func() { c.Eval(evals) }()
 	constant := true
 	var first tv = -1
+	cases := make([]litCase, nLit)
 	for la := 0; la < nLit; la++ {
 		var leaves [3]string
 		var litAsg [3]tv
-		var isNullLit [3]bool
+		lc := &cases[la]
 		x := la
 		for i := 0; i < 3; i++ {
 			leaves[i] = names[i]
@@ -377,128 +388,166 @@ func (j *judge) checkTree(id string, t *tree, s supply, variant int) {
 			litAsg[i] = []tv{T, F, N}[x%3]
 			x /= 3
 			leaves[i] = litAsg[i].String()
-			isNullLit[i] = litAsg[i] == N
+			lc.isNullLit[i] = litAsg[i] == N
 		}
-		expr := t.sql(leaves)
-		want := make([]tv, len(st.rows))
+		lc.expr = t.sql(leaves)
+		lc.rejected = t.notOfNullLiteral(lc.isNullLit)
+		lc.want = make([]tv, len(st.rows))
 		for r, asg := range st.rows {
 			for _, i := range lits {
 				asg[i] = litAsg[i]
 			}
-			want[r] = t.eval(asg)
+			lc.want[r] = t.eval(asg)
 			if first == -1 {
-				first = want[r]
-			} else if want[r] != first {
+				first = lc.want[r]
+			} else if lc.want[r] != first {
 				constant = false
 			}
 		}
-		replay := func(sql string, extra string) map[string]interface{} {
-			return map[string]interface{}{"id": id, "supply": string(s[:]), "sql": sql, "optimize": optimize, "pushdown_table": variant&2 != 0,
-				"rows": fmt.Sprint(st.rows), "want": fmt.Sprint(want), "observed": extra}
+	}
+	replay := func(sql string, want interface{}, extra string) map[string]interface{} {
+		return map[string]interface{}{"id": id, "supply": string(s[:]), "sql": sql, "optimize": optimize, "pushdown_table": variant&2 != 0,
+			"rows": fmt.Sprint(st.rows), "want": fmt.Sprint(want), "observed": extra}
+	}
+	planFail := func(sql string, perr *nodeh.PlanError, lc *litCase) {
+		if perr.Stage == "typecheck" && isUnknownFunctionOnNull(perr.Err.Error()) && lc != nil && lc.rejected {
+			tl["rejected/not-of-null-literal"]++
+			c.Violation(findingNullLiteral, "typecheck rejects NOT applied to a literal NULL: "+perr.Error(), replay(sql, lc.want, perr.Error()))
+			return
 		}
-		planFail := func(sql string, perr *nodeh.PlanError) {
-			if perr.Stage == "typecheck" && isUnknownFunctionOnNull(perr.Err.Error()) && t.notOfNullLiteral(isNullLit) {
-				tl["rejected/not-of-null-literal"]++
-				c.Violation(findingNullLiteral, "typecheck rejects NOT applied to a literal NULL: "+perr.Error(), replay(sql, perr.Error()))
-				return
-			}
-			if perr.Stage == "panic" {
-				c.Violation("plan-panic:"+core.PanicSite(perr.Stack), "planning panicked: "+perr.Error(), replay(sql, perr.Error()))
-				return
-			}
-			c.Violation("plan-error:"+perr.Stage, "well-typed boolean tree rejected: "+perr.Error(), replay(sql, perr.Error()))
+		if perr.Stage == "panic" {
+			c.Violation("plan-panic:"+core.PanicSite(perr.Stack), "planning panicked: "+perr.Error(), replay(sql, nil, perr.Error()))
+			return
 		}
-		runFail := func(sql string, res nodeh.RunResult) bool {
-			if res.Panicked {
-				c.Violation("panic:"+core.PanicSite(res.Stack), "evaluation panicked: "+res.PanicMsg, replay(sql, res.PanicMsg))
-				return true
-			}
-			if res.Err != nil {
-				c.Violation("runtime-error", "evaluation failed: "+res.Err.Error(), replay(sql, res.Err.Error()))
-				return true
-			}
-			return false
+		c.Violation("plan-error:"+perr.Stage, "well-typed boolean tree rejected: "+perr.Error(), replay(sql, nil, perr.Error()))
+	}
+	runFail := func(sql string, res nodeh.RunResult) bool {
+		if res.Panicked {
+			c.Violation("panic:"+core.PanicSite(res.Stack), "evaluation panicked: "+res.PanicMsg, replay(sql, nil, res.PanicMsg))
+			return true
 		}
-
-		// (1) as a select expression
+		if res.Err != nil {
+			c.Violation("runtime-error", "evaluation failed: "+res.Err.Error(), replay(sql, nil, res.Err.Error()))
+			return true
+		}
+		return false
+	}
+	// (1) as select expressions. The assignments of the literal operands that octosql is known to
+	// reject (finding null-literal-operand-rejected) are planned one by one; all others share one
+	// query with one output column per assignment (falling back to one query each if that query is
+	// rejected, so that the offending assignment is named).
+	selectOne := func(group []*litCase) bool {
+		var sb strings.Builder
+		sb.WriteString("SELECT id")
+		wants := make([][]tv, len(group))
+		for k, lc := range group {
+			fmt.Fprintf(&sb, ", %s AS x%d", lc.expr, k)
+			wants[k] = lc.want
+		}
+		sb.WriteString(" FROM m.t")
+		sql := sb.String()
 		evals++
-		sqlSel := "SELECT id, " + expr + " AS x FROM m.t"
-		if p, perr := pipex.Plan(j.ctx, sqlSel, st.db[0], optimize); perr != nil {
-			planFail(sqlSel, perr)
+		p, perr := pipex.Plan(j.ctx, sql, st.db[0], optimize)
+		if perr != nil {
+			if len(group) > 1 {
+				return false
+			}
+			planFail(sql, perr, group[0])
+			return true
+		}
+		outs, res := pipex.Run(j.ctx, p)
+		if !runFail(sql, res) {
+			j.judgeSelect(tl, sql, outs, wants, replay)
+		}
+		return true
+	}
+	var merged []*litCase
+	for la := range cases {
+		if cases[la].rejected {
+			selectOne([]*litCase{&cases[la]})
 		} else {
-			outs, res := pipex.Run(j.ctx, p)
-			if !runFail(sqlSel, res) {
-				j.judgeSelect(tl, sqlSel, outs, want, replay)
-			}
+			merged = append(merged, &cases[la])
 		}
-		// (2) as a WHERE predicate through the Filter node
+	}
+	if len(merged) > 0 && !selectOne(merged) {
+		for _, lc := range merged {
+			selectOne([]*litCase{lc})
+		}
+	}
+	// (2) as a WHERE predicate through the Filter node
+	for la := range cases {
+		if whereSample > 0 && nLit > whereSample && (la+pick)%(nLit/whereSample) != 0 {
+			continue
+		}
+		lc := &cases[la]
 		evals++
-		sqlW := "SELECT id FROM m.t WHERE " + expr
+		sqlW := "SELECT id FROM m.t WHERE " + lc.expr
 		if p, perr := pipex.Plan(j.ctx, sqlW, db, optimize); perr != nil {
-			planFail(sqlW, perr)
+			planFail(sqlW, perr, lc)
 		} else {
 			outs, res := pipex.Run(j.ctx, p)
 			if !runFail(sqlW, res) {
-				j.judgeWhere(tl, sqlW, outs, want, replay)
+				j.judgeWhere(tl, sqlW, outs, lc.want, replay)
 			}
 		}
 	}
 	tl["supply/"+string(s[:])]++
-	tl[fmt.Sprintf("where_variant/optimize=%v,pushdown=%v", optimize, variant&2 != 0)]++
+	tl[fmt.Sprintf("variant/optimize=%v,pushdown=%v", optimize, variant&2 != 0)]++
 	if t.ops() >= 1 && !constant {
 		c.Nontrivial(string(s[:]) + "|" + t.sql(names))
 	}
 }
 
-func (j *judge) judgeSelect(tl tally, sql string, outs []nodeh.Out, want []tv, replay func(string, string) map[string]interface{}) {
+// judgeSelect: outs are (id, x0, x1, ...) rows; wants[k][row] is the reference for column xk.
+func (j *judge) judgeSelect(tl tally, sql string, outs []nodeh.Out, wants [][]tv, replay func(string, interface{}, string) map[string]interface{}) {
 	c := j.c
-	got := make([]tv, len(want))
-	seen := make([]bool, len(want))
+	nRows := len(wants[0])
+	seen := make([]bool, nRows)
 	for _, o := range outs {
 		if o.IsWatermark {
 			continue
 		}
-		if o.Record.Retraction || len(o.Record.Values) != 2 || o.Record.Values[0].TypeID != octosql.TypeIDInt {
-			c.Violation("select-shape", "unexpected output record "+o.String(), replay(sql, nodeh.OutsString(outs)))
+		if o.Record.Retraction || len(o.Record.Values) != 1+len(wants) || o.Record.Values[0].TypeID != octosql.TypeIDInt {
+			c.Violation("select-shape", "unexpected output record "+o.String(), replay(sql, wants, nodeh.OutsString(outs)))
 			return
 		}
 		id := int(o.Record.Values[0].Int)
-		if id < 0 || id >= len(want) || seen[id] {
-			c.Violation("select-shape", "row id out of range or duplicated: "+o.String(), replay(sql, nodeh.OutsString(outs)))
+		if id < 0 || id >= nRows || seen[id] {
+			c.Violation("select-shape", "row id out of range or duplicated: "+o.String(), replay(sql, wants, nodeh.OutsString(outs)))
 			return
 		}
 		seen[id] = true
-		v := o.Record.Values[1]
-		switch v.TypeID {
-		case octosql.TypeIDNull:
-			got[id] = N
-		case octosql.TypeIDBoolean:
-			if v.Boolean {
-				got[id] = T
-			} else {
-				got[id] = F
+		for k := range wants {
+			v := o.Record.Values[1+k]
+			var got tv
+			switch v.TypeID {
+			case octosql.TypeIDNull:
+				got = N
+			case octosql.TypeIDBoolean:
+				got = F
+				if v.Boolean {
+					got = T
+				}
+			default:
+				c.Violation("non-boolean-result", "boolean tree produced a "+v.TypeID.String()+" value", replay(sql, wants, nodeh.OutsString(outs)))
+				return
 			}
-		default:
-			c.Violation("non-boolean-result", "boolean tree produced a "+v.TypeID.String()+" value", replay(sql, nodeh.OutsString(outs)))
-			return
+			if got != wants[k][id] {
+				c.Violation("kleene-mismatch", fmt.Sprintf("row %d column x%d: octosql says %s, Kleene says %s", id, k, got, wants[k][id]), replay(sql, wants, nodeh.OutsString(outs)))
+				return
+			}
+			tl["result/"+got.String()]++
 		}
 	}
-	for id := range want {
+	for id := range seen {
 		if !seen[id] {
-			c.Violation("select-shape", fmt.Sprintf("row %d missing from the projection", id), replay(sql, nodeh.OutsString(outs)))
+			c.Violation("select-shape", fmt.Sprintf("row %d missing from the projection", id), replay(sql, wants, nodeh.OutsString(outs)))
 			return
 		}
-	}
-	for id := range want {
-		if got[id] != want[id] {
-			c.Violation("kleene-mismatch", fmt.Sprintf("row %d: octosql says %s, Kleene says %s", id, got[id], want[id]), replay(sql, fmt.Sprint(got)))
-			return
-		}
-		tl["result/"+got[id].String()]++
 	}
 }
 
-func (j *judge) judgeWhere(tl tally, sql string, outs []nodeh.Out, want []tv, replay func(string, string) map[string]interface{}) {
+func (j *judge) judgeWhere(tl tally, sql string, outs []nodeh.Out, want []tv, replay func(string, interface{}, string) map[string]interface{}) {
 	c := j.c
 	kept := make([]int, len(want))
 	for _, o := range outs {
@@ -506,12 +555,12 @@ func (j *judge) judgeWhere(tl tally, sql string, outs []nodeh.Out, want []tv, re
 			continue
 		}
 		if o.Record.Retraction || len(o.Record.Values) != 1 || o.Record.Values[0].TypeID != octosql.TypeIDInt {
-			c.Violation("where-shape", "unexpected output record "+o.String(), replay(sql, nodeh.OutsString(outs)))
+			c.Violation("where-shape", "unexpected output record "+o.String(), replay(sql, want, nodeh.OutsString(outs)))
 			return
 		}
 		id := int(o.Record.Values[0].Int)
 		if id < 0 || id >= len(want) {
-			c.Violation("where-shape", "row id out of range: "+o.String(), replay(sql, nodeh.OutsString(outs)))
+			c.Violation("where-shape", "row id out of range: "+o.String(), replay(sql, want, nodeh.OutsString(outs)))
 			return
 		}
 		kept[id]++
@@ -529,7 +578,7 @@ func (j *judge) judgeWhere(tl tally, sql string, outs []nodeh.Out, want []tv, re
 					key = "where-duplicated-row"
 				}
 			}
-			c.Violation(key, fmt.Sprintf("row %d has predicate %s and was emitted %d times", id, want[id], kept[id]), replay(sql, nodeh.OutsString(outs)))
+			c.Violation(key, fmt.Sprintf("row %d has predicate %s and was emitted %d times", id, want[id], kept[id]), replay(sql, want, nodeh.OutsString(outs)))
 			return
 		}
 		if exp == 1 {
